@@ -15,8 +15,6 @@
 #include "geom.h"
 #include "gen.h"
 #include "clipper2/clipper.h"
-#include <csignal>
-#include <sys/time.h>
 #include <sys/resource.h>
 
 using namespace vf;
@@ -26,20 +24,6 @@ namespace {
 
 const int64_t kMaxCoord = (int64_t)1 << 61;   // generated inputs stay within +-2^61 (DESIGN.md 2.5)
 const int kMaxCellsPerAxis = 64;              // work bound for replayed witnesses; generated scenes have <= 8
-
-// A case normally takes ~30 microseconds. An Execute that burns kWatchdogCpuSeconds of *CPU time* (not wall time, so
-// machine load cannot trigger it) does not terminate for practical purposes: the worker aborts with a VF-WATCHDOG line,
-// the orchestrator re-runs the case alone and reports it as C02.crash (tags watchdog_execute_cpu, ...).
-const int kWatchdogCpuSeconds = 20;
-void on_cpu_alarm(int) {
-  static const char msg[] = "VF-WATCHDOG execute_cpu Clipper64::Execute used more than 20 s of CPU on one rectilinear case\n";
-  ssize_t r = write(2, msg, sizeof msg - 1); (void)r;
-  abort();
-}
-void arm_watchdog(int seconds) {
-  struct itimerval it; memset(&it, 0, sizeof it); it.it_value.tv_sec = seconds;
-  setitimer(ITIMER_PROF, &it, nullptr);
-}
 
 // edge in doubled coordinates relative to the bounding-box corner (x0,y0): |value| <= 2^63, products <= 2^126
 struct E2 { i128 ax, ay, bx, by; };
@@ -187,9 +171,7 @@ void judge(Ctx& ctx, const Case& c, bool from_replay) {
   clipper.AddSubject(S);
   clipper.AddClip(C);
   Paths64 sol;
-  arm_watchdog(kWatchdogCpuSeconds);
-  bool ok = clipper.Execute((ClipType)ct, (FillRule)fr, sol);
-  arm_watchdog(0);
+  bool ok = clipper.Execute((ClipType)ct, (FillRule)fr, sol);   // a hang is caught by vf.h's per-case watchdog (--case_timeout)
   ctx.evaluated();
 
   const std::string cfgs = "ct" + std::to_string(ct) + "_fr" + std::to_string(fr) + "_pc" + std::to_string((int)pc);
@@ -337,7 +319,6 @@ void rnd_case(Ctx& ctx, uint64_t i) {
 } // namespace
 
 void vf_begin(Ctx&) {
-  signal(SIGPROF, on_cpu_alarm);
   struct rlimit rl; rl.rlim_cur = rl.rlim_max = (rlim_t)6 << 30;   // a runaway Execute must fail, not exhaust the machine
   setrlimit(RLIMIT_AS, &rl);
 }
